@@ -72,6 +72,9 @@ func c05Text(c *fw.Case, t string, proto bool) {
 			continue
 		}
 		if derr == nil && string(dec) == t {
+			if len(t) > 1 {
+				c.Sample(3, map[string]any{"codec": cd.name, "text": t, "encoded": hx(keep), "decoded_equal": true})
+			}
 			c.Cover("codec/" + cd.name + "/roundtrip")
 			continue
 		}
